@@ -24,8 +24,6 @@ PY
 fi
 echo "== check $PID against changed tree:"
 cd /verif && VERIF_REPO=$WT ./check $PID 2>&1 | grep -E "VIOLATION|KNOWN-FINDING|obligations" | head -8
-cp /verif/evidence/$PID.json /scratch/seedtest-$PID-evidence.json 2>/dev/null
+cp /verif/build/evidence-scratch/$PID.json /scratch/seedtest-$PID-evidence.json 2>/dev/null
 mkdir -p /scratch/seedtest-$PID-replays; cp /verif/replays/$PID-*.json /scratch/seedtest-$PID-replays/ 2>/dev/null
 git -C /repo worktree remove --force $WT
-echo "== restoring evidence by re-running check on /repo"
-cd /verif && ./check $PID 2>&1 | tail -1
